@@ -54,6 +54,9 @@ def run_lockstep(a, b, cap=3000):
                 random.setstate(states[k])
                 try:
                     alive[k] = sims[k].step_simulation()
+                except S.FailedAssertionException as e:
+                    tr[k].append(S._assert_line(e))
+                    alive[k] = False
                 except Exception as e:
                     tr[k].append("exception %s" % type(e).__name__)
                     alive[k] = False
